@@ -18,6 +18,17 @@ func generate(p *ragen.Program) cli.Result {
 	return cli.Run(cli.Opt{Dir: sb.Root, Stdin: p.MainText(), Timeout: 30 * time.Second}, "-d", sb.Path("crs"), "regex", "generate", "-")
 }
 
+// generateWith runs `regex generate -` with extra global arguments (e.g. -l debug, -o github) in front.
+func generateWith(p *ragen.Program, global ...string) cli.Result {
+	sb := cli.NewSandbox("gen")
+	defer sb.Close()
+	if err := cli.Tree(p.Tree()).Write(sb.Path("crs")); err != nil {
+		panic(err)
+	}
+	args := append(append([]string{}, global...), "-d", sb.Path("crs"), "regex", "generate", "-")
+	return cli.Run(cli.Opt{Dir: sb.Root, Stdin: p.MainText(), Timeout: 30 * time.Second}, args...)
+}
+
 // generateFile runs `regex generate 942999` with the program stored as regex-assembly/942999.ra: the
 // file variant of the command must print what the stdin variant prints for the same bytes.
 func generateFile(p *ragen.Program) cli.Result {
